@@ -58,3 +58,6 @@ Definition case_branches (c : case) : list nat :=
   (match p_limit (c_prog c) with Some _ => [8] | None => [] end) ++
   (if oof s then [9] else []).
 Definition n_branches : nat := 10.
+
+(* two observations of the same program (do / ado, or flat / nested) both checked against the model *)
+Definition check_pair (cc : case * case) : bool := check_case (fst cc) && check_case (snd cc).
